@@ -43,7 +43,10 @@ const (
 // the last token is an ordinary coin whose name has the shape <word>-<number> of a pool-token denomination
 // ("lpt-1"): ParseLptDenom accepts it, only the denomination index tells it from a pool token
 var csTokNames = []string{"tokena", "tokenb", "ibc/17CD484EE7D9723B847D95015FA3EBD1572FD13BC84FB838F55B18A57450F25B", "fee-1"}
-var csModules = []string{coinswaptypes.ModuleName, authtypes.FeeCollectorName, distrtypes.ModuleName, erc20types.ModuleName}
+// the last two are module accounts that nothing has written to the account store yet when a case starts (a module
+// account is stored the first time its module uses it): a module account is one by its NAME in the app's table, not by
+// what the account store holds
+var csModules = []string{coinswaptypes.ModuleName, authtypes.FeeCollectorName, distrtypes.ModuleName, erc20types.ModuleName, "onboarding", "transfer"}
 
 // ---- replay format ----
 type csParams struct {
@@ -1122,7 +1125,7 @@ func csBrokenInvariants(a *app.Canto, ctx sdk.Context) map[string]bool {
 
 func runCoinswap(e *Env, prop string) {
 	e.Header("From Coq Require Import ZArith List.\nFrom Canto Require Import Model.Coinswap Check.Common Check.CoinswapCheck.\nImport ListNotations.\nOpen Scope Z_scope.\n")
-	e.Stats.Rule = "case = random valid coinswap params (fee 0 / 0.003 / 0.5 / 1-1ulp / 1ulp / random; creation fee+tax on and off; caps tiny..2^250; whitelist subsets) + funded users (magnitudes 1..5, 1..1e3, 1..1e9, k*2^j up to 2^200) + history of messages through the real message server (sell, buy both directions, add, remove, donations to escrows, onboarding-style keeper-level buys, live parameter changes, invalid/malformed messages), amounts aimed at every bound (just met / just missed) computed from the live pool state; recipients incl. module accounts and escrows, upper-case bech32; after every message the complete tracked bank projection (users, 4 escrows, 4 module accounts x 9 denoms + supplies), pools, sequence, params and decoded response are compared with the model and fed to the monitors; a digest of every untracked balance/supply must not change; non-trivial = at least one accepted pool operation; distinct by hash of the accepted-operation sequence"
+	e.Stats.Rule = "case = random valid coinswap params (fee 0 / 0.003 / 0.5 / 1-1ulp / 1ulp / random; creation fee+tax on and off; caps tiny..2^250; whitelist subsets) + funded users (magnitudes 1..5, 1..1e3, 1..1e9, k*2^j up to 2^200) + history of messages through the real message server (sell, buy both directions, add, remove, donations to escrows, onboarding-style keeper-level buys, live parameter changes, invalid/malformed messages), amounts aimed at every bound (just met / just missed) computed from the live pool state; recipients incl. module accounts and escrows, upper-case bech32; after every message the complete tracked bank projection (users, 4 escrows, 6 module accounts - two of them not yet in the account store - x 9 denoms + supplies), pools, sequence, params and decoded response are compared with the model and fed to the monitors; a digest of every untracked balance/supply must not change; non-trivial = at least one accepted pool operation; distinct by hash of the accepted-operation sequence"
 	a, baseCtx := NewApp()
 	e.ShardSize = 3
 	nCases := e.Scale(30, 600)
